@@ -11,6 +11,7 @@ by the helper's body, parameters substituted and locals renamed, when the shape 
   * value form       `x = self._h(a)` / `return self._h(a)` / `if self._h(a):` ... where the body folds into ONE expression
                      (local assignments substituted, `if c: return A` ... `return B` read as a conditional): the call is
                      replaced by that expression;
+  * expression form  a call anywhere inside an expression, where the (synchronous) helper's body folds into ONE expression;
   * block-value form `x = self._h(a)` / `return self._h(a)` where the body is statements followed by a single final
                      `return <expr>`: the statements are placed before the calling statement and the call becomes <expr>.
 
@@ -355,6 +356,43 @@ class _Inliner:
             return out
 
         fn.body = block(fn.body)  # type: ignore[attr-defined]
+
+        # ---- expression form: a call anywhere inside an expression of a (synchronous) helper whose body folds into ONE
+        # expression is replaced by that expression
+        outer = self
+
+        class _InExpr(ast.NodeTransformer):
+            def visit_FunctionDef(self, n: ast.AST) -> ast.AST:
+                return n if n is not fn else self.generic_visit(n)
+
+            visit_AsyncFunctionDef = visit_FunctionDef
+
+            def visit_Lambda(self, n: ast.Lambda) -> ast.AST:
+                return n
+
+            def visit_Call(self, c: ast.Call) -> ast.AST:
+                self.generic_visit(c)
+                call, aw = outer._call_of(c, helpers, me)
+                if call is None or aw:
+                    return c
+                h = helpers[call.func.attr if isinstance(call.func, ast.Attribute) else call.func.id]  # type: ignore[union-attr]
+                if isinstance(h, ast.AsyncFunctionDef):
+                    return c
+                prep = outer._prepared(h, call, is_method, caller_locals)
+                if prep is None:
+                    return c
+                hb, m, ren = prep
+                e = _fold_expr(hb)
+                if e is None:
+                    return c
+                ne = subst(h, [ast.Expr(value=e)], m, ren)[0].value  # type: ignore[attr-defined]
+                if not isinstance(ne, ast.Call):
+                    ast.copy_location(ne, c)
+                outer.count += 1
+                outer.names.append(h.name)  # type: ignore[attr-defined]
+                return ne
+
+        _InExpr().visit(fn)
 
     def run(self, tree: ast.Module) -> None:
         mod_helpers = self.helpers_of(tree.body)
